@@ -295,6 +295,13 @@ def check_range(W, rec, L, h, supply, bs, method, ifrange=None):
         body = [txt[i:i + bs] for i in range(0, len(txt), bs)]
     elif supply == "gen":
         body = (res[i:i + bs] for i in range(0, L, bs))
+    elif supply == "fw-rewound":
+        # the application streamed over the wrapper once (to hash it, to learn its length) and rewound the file
+        spy = FSpy(res)
+        body = FileWrapper(spy, bs)
+        for _chunk in body:
+            pass
+        spy.seek(0)
     elif supply == "fw":
         spy = FSpy(res)
         body = FileWrapper(spy, bs)
@@ -436,6 +443,53 @@ def check_sendfile(W, rec, L, h, kind, tmpdir):
             rec.violation(f"C11/file-closed-{spy.closed_n}-times", f"{case}", case, monitor="close-spy")
 
 
+def check_sendfile_validators(W, rec, tmpdir):
+    """send_file(path) derives Last-Modified (and the ETag) from the file's mtime, a number: a client that sends that
+    very date back gets 304, one that sends an earlier second gets the file - in whatever time zone the process runs."""
+    from werkzeug.http import http_date
+    from werkzeug.utils import send_file
+
+    p = os.path.join(tmpdir, "validators.bin")
+    with open(p, "wb") as f:
+        f.write(b"0123456789")
+    for mtime in (1_445_412_480, 1_700_000_000.5, 86_400 * 365):
+        os.utime(p, (mtime, mtime))
+        lm = datetime.fromtimestamp(int(mtime), timezone.utc)
+        for delta, want in ((0, 304), (3600, 304), (-1, 200), (-3600, 200), (-86_400, 200)):
+            for method in ("GET", "HEAD"):
+                ims = http_date(lm + timedelta(seconds=delta))
+                env = W["create_environ"](method=method, headers={"If-Modified-Since": ims})
+                r = send_file(p, env, conditional=True, etag=False)
+                it, status, hdl = r.get_wsgi_response(env)
+                b"".join(it)
+                if hasattr(it, "close"):
+                    it.close()
+                case = {"family": "send_file-validators", "mtime": mtime, "If-Modified-Since": ims, "method": method}
+                rec.case()
+                rec.nontrivial(("sf-validators", mtime, delta, method))
+                rec.observe("sendfile_validator_cells")
+                got_lm = http_date(r.last_modified) if r.last_modified is not None else None  # (a 304 does not carry the header)
+                if got_lm != http_date(lm):
+                    rec.violation("C11/send_file-last-modified-differs-from-mtime", f"mtime {mtime} ({http_date(lm)}) served as Last-Modified {got_lm!r}; {case}", case, monitor="validator-evaluator")
+                    return
+                if int(status[:3]) != want:
+                    rec.violation(f"C11/conditional-got-{status[:3]}-expected-{want}", f"send_file(path) with Last-Modified {got_lm!r}; {case}", case, monitor="validator-evaluator")
+                    return
+            # ... and as the If-Range validator of a range request
+            for delta, want in ((0, 206), (-1, 200)):
+                env = W["create_environ"](headers={"Range": "bytes=2-4", "If-Range": http_date(lm + timedelta(seconds=delta))})
+                r = send_file(p, env, conditional=True, etag=False)
+                it, status, hdl = r.get_wsgi_response(env)
+                data = b"".join(it)
+                if hasattr(it, "close"):
+                    it.close()
+                rec.case()
+                if int(status[:3]) != want or data != (b"234" if want == 206 else b"0123456789"):
+                    rec.violation(f"C11/range-status-{status[:3]}", f"send_file(path), If-Range {delta:+d}s from the mtime: {status} {data!r}, expected {want}",
+                                  {"family": "send_file-validators", "mtime": mtime, "If-Range-delta": delta}, monitor="range-evaluator")
+                    return
+
+
 def world():
     from werkzeug import wsgi
     from werkzeug.test import create_environ
@@ -495,6 +549,8 @@ def run(shard, rec, rng):
                         check_range(W, rec, L, h, "list-noauto", bs, "GET")
                     with rec.guard({"L": L, "Range": h, "supply": "list-passthrough"}, "C11"):
                         check_range(W, rec, L, h, "list-passthrough", bs, "GET")
+                    with rec.guard({"L": L, "Range": h, "supply": "fw-rewound"}, "C11"):
+                        check_range(W, rec, L, h, "fw-rewound", bs + 2, "GET")
             for ifr in IFR[1:]:
                 n += 1
                 if n % of == idx:
@@ -502,6 +558,9 @@ def run(shard, rec, rng):
                         check_range(W, rec, L, h, "list", 3, "GET", ifrange=ifr)
     tmpdir = tempfile.mkdtemp(prefix="c11-")
     try:
+        if idx % 4 == 1:
+            with rec.guard({"family": "send_file-validators"}, "C11"):
+                check_sendfile_validators(W, rec, tmpdir)
         for L in range(0, cfg["maxlen"] + 1, 2):
             for h in RH:
                 for kind in ("path", "bytesio", "fileobj-offset"):
